@@ -1,4 +1,5 @@
-// Package c17 is the correspondence area of property C17 (stub: the slice is not built yet).
+// Package c17 is the correspondence area of property C17: arbitrary client bytes against a real
+// grpcbridge.WebBridge (fuzz correspondence) plus differential ops for the small client-facing cores.
 package c17
 
 import (
@@ -9,6 +10,11 @@ type Area struct{}
 
 func (Area) Name() string { return "c17" }
 
-func (Area) Exec(input string) string { return "UNIMPLEMENTED" }
+// Exec forwards the case to the worker subprocess (see worker.go); it is a pure function of the line.
+func (Area) Exec(input string) string { return parentExec(input) }
 
-func (Area) Gen(r *rand.Rand, tier string, emit func(string)) {}
+func (Area) Gen(r *rand.Rand, tier string, emit func(string)) { gen(r, tier, emit) }
+
+func (Area) Extra() map[string]any {
+	return map[string]any{"workers_started": nWorkers, "worker_crashes": nCrashes, "hangs": nHangs, "generator": genStats}
+}
